@@ -16,7 +16,7 @@ package jsoac
 //@   modifies pool_state()
 //@   ensures result1 == nil ==> notPooled(result0)
 //@   no_panic
-//@   loop#1 invariant -1 <= rangeindex && rangeindex < len(e.list) && b != nil && pool_buffer(b)
+//@   loop#1 invariant -1 <= rangeindex && rangeindex < len(e.list) && b != nil && pool_buffer(b) && pool_held(b)
 //@   loop#1 decreases len(e.list) - rangeindex
 
 //@ func (Ref).MarshalJSON
@@ -31,7 +31,7 @@ package jsoac
 //@   modifies pool_state()
 //@   ensures result1 == nil ==> notPooled(result0)
 //@   no_panic
-//@   loop#1 invariant -1 <= rangeindex && rangeindex < len(a.userTypeNames) && b != nil && pool_buffer(b)
+//@   loop#1 invariant -1 <= rangeindex && rangeindex < len(a.userTypeNames) && b != nil && pool_buffer(b) && pool_held(b)
 //@   loop#1 decreases len(a.userTypeNames) - rangeindex
 
 //@ func (ArrayItems).MarshalJSON
@@ -39,7 +39,7 @@ package jsoac
 //@   modifies pool_state()
 //@   ensures result1 == nil ==> notPooled(result0)
 //@   no_panic
-//@   loop#1 invariant -1 <= rangeindex && rangeindex < len(ai.items) && b != nil && pool_buffer(b)
+//@   loop#1 invariant -1 <= rangeindex && rangeindex < len(ai.items) && b != nil && pool_buffer(b) && pool_held(b)
 //@   loop#1 decreases len(ai.items) - rangeindex
 
 //@ func (ObjectProperties).MarshalJSON
@@ -47,5 +47,5 @@ package jsoac
 //@   modifies pool_state()
 //@   ensures result1 == nil ==> notPooled(result0)
 //@   no_panic
-//@   loop#1 invariant -1 <= rangeindex && rangeindex < len(op.properties) && b != nil && pool_buffer(b)
+//@   loop#1 invariant -1 <= rangeindex && rangeindex < len(op.properties) && b != nil && pool_buffer(b) && pool_held(b)
 //@   loop#1 decreases len(op.properties) - rangeindex
